@@ -136,12 +136,42 @@ def registration_survives_cleanup(ctx, repo, rule):
 
 
 def engine_obligations(ctx, repo, r_fifo, r_throttle, r_first, r_iso):
-    from .facts import class_const
-    rate = class_const(repo, SOCK, "_SENDING_THROTTLE_RATE_PER_SECOND")
+    from .core import AnalysisError as _AE
     ps = repo.method(SOCK, "_process_send_requests")
+    # the throttle gap by behaviour (a named constant, a literal, a computed value - whatever the code uses): after a send
+    # at t, the smallest g for which a call at t+g sends the next queued request (bisection on the model clock, 1 us)
+
+    def second_goes_out_after(g):
+        e0 = Engine(repo)
+        for i in range(2):
+            e0.call("queue_send", e0.handler(f"p{i}"), ("10.0.0.%d" % i, 10022))
+        e0.clock = 10.0
+        e0.call("_process_send_requests")
+        e0.clock = 10.0 + g
+        e0.call("_process_send_requests")
+        return len(e0.wire) == 2
+    try:
+        if second_goes_out_after(0.0):
+            rate = float("inf")
+        elif not second_goes_out_after(1.0):
+            rate = 0.0
+        else:
+            lo, hi = 0.0, 1.0
+            for _ in range(22):
+                mid = (lo + hi) / 2
+                if second_goes_out_after(mid):
+                    hi = mid
+                else:
+                    lo = mid
+            rate = round(1.0 / hi, 3)
+    except PyRaise as ex:
+        ctx.ob(r_iso, f"{ps.qual}::does-not-raise", False, f"{ps.qual} raises {ex.what}", ps.loc)
+        return
     dr = repo.method(SOCK, "dispatch_recevied_data")
-    ctx.ob(r_throttle, "throttle-rate::positive", isinstance(rate, (int, float)) and rate > 0, f"throttle rate is {rate!r}", repo.cls(SOCK).loc)
-    if not (isinstance(rate, (int, float)) and rate > 0):
+    ctx.ob(r_throttle, "throttle-rate::positive", isinstance(rate, (int, float)) and 0 < rate < float("inf"),
+           f"two queued requests: the second leaves {'in the same instant as the first (no throttle at all)' if rate == float('inf') else 'not even a second after the first'} - observed rate {rate!r} per second", repo.cls(SOCK).loc,
+           sample={"rule": r_throttle, "observed_rate_per_second": rate})
+    if not (isinstance(rate, (int, float)) and 0 < rate < float("inf")):
         return
     gap = 1.0 / rate
     # ---- FIFO + one per call + throttle
